@@ -83,6 +83,14 @@ const (
 	// of the specification this allows to decrease hardware complexity as
 	// in all opcodes the 31 bit is the sign bit.
 	immTypeJ
+
+	// immTypeShamt is an instruction opcode format of bit shifts by a
+	// constant, which encodes the (unsigned) shift amount in bits [20:25].
+	//
+	// Shifts of 32 bit values use just bits [20:24], but their opcode
+	// requires bit [25] to be zero, so there is no need to distinguish
+	// those two cases.
+	immTypeShamt
 )
 
 // parseBitRange parses bits in range [begin, end) in value into lowest bytes of
@@ -162,6 +170,8 @@ func (t immType) parseValue(value uint32) (int32, bool) {
 		unsigned := (first << 1) | (second << 11) | (third << 12) | (sign << 20)
 		val := signExtend(unsigned, 20)
 		return val, true
+	case immTypeShamt:
+		return int32(parseBitRange(value, 20, 26)), true
 	default:
 		panic(fmt.Sprintf("unknown immediate type: %v", t))
 	}
